@@ -54,10 +54,14 @@ fn rfr(seed: u64) -> Fr {
 fn other_bound(cur: Option<usize>, enforced: &[usize], seed: u64) -> Option<usize> {
     let others: Vec<usize> = enforced.iter().cloned().filter(|x| Some(*x) != cur).collect();
     let top = enforced.iter().cloned().max().unwrap_or(4) + 2;
-    let foreign: Vec<usize> = (0..=top).filter(|x| !enforced.contains(x) && Some(*x) != cur).collect();
+    let mut foreign: Vec<usize> = (0..=top).filter(|x| !enforced.contains(x) && Some(*x) != cur).collect();
+    if (seed >> 13) % 4 == 0 {
+        // well beyond every enforced bound
+        foreign = vec![top + 7, 2 * top + 1, usize::MAX];
+    }
     if (seed >> 7) % 2 == 0 && !foreign.is_empty() {
         // prefer values just below an enforced bound
-        let near: Vec<usize> = foreign.iter().cloned().filter(|x| enforced.contains(&(x + 1)) || enforced.contains(&(x + 2))).collect();
+        let near: Vec<usize> = foreign.iter().cloned().filter(|x| x.checked_add(1).map(|y| enforced.contains(&y)).unwrap_or(false) || x.checked_add(2).map(|y| enforced.contains(&y)).unwrap_or(false)).collect();
         let pool = if !near.is_empty() && (seed >> 9) % 3 != 0 { near } else { foreign };
         return Some(pool[((seed >> 11) % pool.len() as u64) as usize]);
     }
@@ -403,8 +407,13 @@ impl RefV for Ipa {
                 c.shifted_comm = Some(rj(seed));
             } else {
                 let d = t.vk.comm_key.len() - 1;
-                let nb = 1 + (seed as usize) % d.max(1);
-                b = Some(if Some(nb) == b { (nb % d.max(1)) + 1 } else { nb });
+                if (seed >> 17) % 3 == 0 {
+                    // a bound beyond the supported degree (the published relation has none: refuse)
+                    b = Some([d + 1, d + 2, d + 9, 2 * d + 1, usize::MAX][((seed >> 19) % 5) as usize]);
+                } else {
+                    let nb = 1 + (seed as usize) % d.max(1);
+                    b = Some(if Some(nb) == b { (nb % d.max(1)) + 1 } else { nb });
+                }
             }
             t.comms[j] = relabel(&t.comms[j], c, b);
         } else if name.starts_with("value[") {
